@@ -28,7 +28,7 @@ use crate::{
 
 type P = TagProblem;
 
-#[derive(Tid, Clone, Serialize)]
+#[derive(Tid, Clone, Serialize, Default)]
 pub struct K0(pub u32);
 impl CustomState<'_> for K0 {}
 impl std::ops::Deref for K0 {
@@ -236,6 +236,34 @@ pub struct VLeaf {
     ctx: Shared,
 }
 
+impl VLeaf {
+    /// variant "ent0": K0 through the get-or-create accessors of the registry; which of the equivalent forms is used
+    /// depends on the position of the leaf, so every form occurs inside and outside scopes
+    fn get_or_create(&self, state: &mut State<P>) {
+        use mahf::state::registry::Entry;
+        let created = !state.contains::<K0>();
+        match self.path.iter().sum::<u32>() % 4 {
+            0 => {
+                state.entry::<K0>().or_insert(K0(0));
+            }
+            1 => {
+                state.entry::<K0>().or_insert_with(|| K0(0));
+            }
+            2 => {
+                state.entry::<K0>().or_default();
+            }
+            _ => {
+                if let Entry::Vacant(e) = state.entry::<K0>() {
+                    e.insert(K0(0));
+                }
+            }
+        }
+        if created {
+            state.entry::<Progress<ValueOf<K0>>>().or_insert_with(Progress::<ValueOf<K0>>::default);
+        }
+    }
+}
+
 impl Component<P> for VLeaf {
     fn init(&self, _: &P, state: &mut State<P>) -> ExecResult<()> {
         if log(&self.ctx, "init", "leaf", &self.path, state, NOVAL) {
@@ -256,6 +284,9 @@ impl Component<P> for VLeaf {
             *pe = 30.0 * 0.25;
             state.insert(pe);
         }
+        if self.variant == "ent0" {
+            self.get_or_create(state);
+        }
         Ok(())
     }
     fn require(&self, _: &P, state_req: &StateReq<P>) -> ExecResult<()> {
@@ -274,7 +305,10 @@ impl Component<P> for VLeaf {
         if log(&self.ctx, "exec", "leaf", &self.path, state, NOVAL) {
             return Err(eyre::eyre!("injected fault"));
         }
-        if self.variant == "ins0" {
+        if self.variant == "ent0" {
+            self.get_or_create(state);
+        }
+        if self.variant == "ins0" || self.variant == "ent0" {
             let mut now = None;
             if let Ok(mut k) = state.try_borrow_value_mut::<K0>() {
                 *k += 1;
@@ -559,7 +593,7 @@ fn run_case(out: &mut Out, run: u64, case: &Value) {
 }
 
 fn random_body(rng: &mut impl Rng, budget: &mut i32, depth: u32) -> Value {
-    random_body_with(rng, budget, depth, &["plain", "ins0", "req0", "ins0"])
+    random_body_with(rng, budget, depth, &["plain", "ins0", "req0", "ins0", "ent0"])
 }
 
 fn random_body_with(rng: &mut impl Rng, budget: &mut i32, depth: u32, variants: &[&str]) -> Value {
